@@ -8,7 +8,7 @@ use revm::primitives::{
     AccountInfo, Address, Bytecode, Bytes, ExecutionResult, HaltReason, Output, ResultAndState, SpecId, TxKind, B256,
     KECCAK_EMPTY, U256,
 };
-use revm::{Database, DatabaseRef, Evm};
+use revm::{Database, DatabaseCommit, DatabaseRef, Evm};
 use std::collections::BTreeMap;
 use std::convert::Infallible;
 
@@ -41,6 +41,20 @@ fn run_tx<DB: Database>(db: DB, spec: SpecId, caller: Address, to: TxKind, gas_l
         tx.caller = caller; tx.transact_to = to; tx.gas_limit = gas_limit; tx.gas_price = U256::ZERO; tx.value = U256::ZERO; tx.data = Bytes::new();
     }).build();
     evm.transact().map_err(|e| format!("{:?}", e))
+}
+
+/// A committed earlier transaction (1 wei sent to the target from a third account) and then the
+/// create on the same database: the layer has to keep answering has_storage for an account it has
+/// written through (CacheDB AccountState::Touched, State status Changed).
+fn run_after_touch<DB: Database + DatabaseCommit>(mut db: DB, spec: SpecId, funder: Address, target: Address, caller: Address, to: TxKind, gas_limit: u64) -> Result<ResultAndState, String> where DB::Error: std::fmt::Debug {
+    {
+        let mut evm = Evm::builder().with_db(&mut db).with_spec_id(spec).modify_tx_env(|tx| {
+            tx.caller = funder; tx.transact_to = TxKind::Call(target); tx.gas_limit = 100_000; tx.gas_price = U256::ZERO; tx.value = U256::from(1); tx.data = Bytes::new();
+        }).build();
+        let r = evm.transact_commit().map_err(|e| format!("{:?}", e))?;
+        if !r.is_success() { return Err(format!("touch transaction failed: {:?}", r)); }
+    }
+    run_tx(db, spec, caller, to, gas_limit)
 }
 
 pub fn run(o: &Opts) {
@@ -90,6 +104,13 @@ pub fn run(o: &Opts) {
                         let mut m = MapDb::default();
                         m.acc.insert(eoa, AccountInfo { nonce: if kind == 0 { creator_nonce } else { rng.below(50) }, balance: U256::from(1u64) << 100, code_hash: KECCAK_EMPTY, code: None });
                         if kind != 0 { m.acc.insert(factory, AccountInfo { nonce: creator_nonce, balance: U256::from(777), code_hash: fcode.hash_slow(), code: Some(fcode.clone()) }); m.code.insert(fcode.hash_slow(), fcode.clone()); }
+                        // odd rounds: on the layers that can commit, a committed transfer of 1 wei to the target comes first
+                        let hist = round % 2 == 1 && matches!(layer, 1 | 2 | 3 | 6 | 7) && tk != 1;
+                        let funder = Address::from_slice(&rng.bytes(20));
+                        if hist {
+                            let fi = AccountInfo { nonce: 0, balance: U256::from(1u64) << 90, code_hash: KECCAK_EMPTY, code: None };
+                            m.acc.insert(funder, fi);
+                        }
                         let mut m_without_target = m.clone();
                         if let Some(i) = &tinfo { m.acc.insert(target, i.clone()); if tk == 1 { m.code.insert(tcode.hash_slow(), tcode.clone()); m_without_target.code.insert(tcode.hash_slow(), tcode.clone()); } }
                         for (k, v) in &slots { m.stor.insert((target, *k), *v); }
@@ -109,7 +130,16 @@ pub fn run(o: &Opts) {
                         if tinfo.is_none() && !slots.is_empty() { continue; }
                         let gas_limit = 200_000 + rng.below(800_000);
                         let to = if kind == 0 { TxKind::Create } else { TxKind::Call(factory) };
-                        let r = catch(|| match layer {
+                        let r = catch(|| if hist { match layer {
+                            1 => run_after_touch(BlockState::builder().with_database(m.clone()).build(), spec, funder, target, eoa, to, gas_limit),
+                            2 => run_after_touch(CacheDB::new(m.clone()), spec, funder, target, eoa, to, gas_limit),
+                            3 => { let mut c = CacheDB::new(EmptyDB::default());
+                                   for (a, i) in &m.acc { c.insert_account_info(*a, i.clone()); }
+                                   for ((a, k), v) in &m.stor { c.insert_account_storage(*a, *k, *v).unwrap(); }
+                                   run_after_touch(c, spec, funder, target, eoa, to, gas_limit) }
+                            6 => run_after_touch(BlockState::builder().with_database(inserted(m_without_target.clone())).build(), spec, funder, target, eoa, to, gas_limit),
+                            _ => run_after_touch(CacheDB::new(inserted(m_without_target.clone())), spec, funder, target, eoa, to, gas_limit),
+                        } } else { match layer {
                             0 => run_tx(m.clone(), spec, eoa, to, gas_limit),
                             1 => run_tx(BlockState::builder().with_database(m.clone()).build(), spec, eoa, to, gas_limit),
                             2 => run_tx(CacheDB::new(m.clone()), spec, eoa, to, gas_limit),
@@ -118,7 +148,7 @@ pub fn run(o: &Opts) {
                             5 => run_tx(WrapDatabaseRef(CacheDB::new(m.clone())), spec, eoa, to, gas_limit),
                             6 => run_tx(BlockState::builder().with_database(inserted(m_without_target.clone())).build(), spec, eoa, to, gas_limit),
                             _ => run_tx(CacheDB::new(inserted(m_without_target.clone())), spec, eoa, to, gas_limit),
-                        });
+                        } });
                         let rs = match r { Ok(Ok(rs)) => rs, other => { w.tag("harness:transact-error"); eprintln!("c21 transact error {:?}", other.map(|x| x.map(|_| ()))); continue; } };
                         // observations
                         let (mut collided, mut created_ok, mut ga, mut gb) = (false, false, 0u64, 0u64);
@@ -134,7 +164,8 @@ pub fn run(o: &Opts) {
                             }
                             _ => { w.tag("harness:unexpected-result"); }
                         }
-                        let pre = tinfo.clone().unwrap_or_default();
+                        let mut pre = tinfo.clone().unwrap_or_default();
+                        if hist { pre.balance += U256::from(1); }
                         let (post, t_created, stor_same) = match rs.state.get(&target) {
                             Some(acc) => (acc.info.clone(), acc.is_created(), acc.storage.values().all(|s| !s.is_changed())),
                             None => (pre.clone(), false, true),
@@ -148,14 +179,15 @@ pub fn run(o: &Opts) {
                         let case = format!("(mkCase {} {} {} {} {})", kind, zb(spec.is_enabled_in(SpecId::TANGERINE)), env, zb(has_storage), obs);
                         let kn = ["create-tx", "CREATE", "CREATE2"][kind as usize];
                         let tn = ["empty", "code", "nonce", "storage", "storage+balance", "balance", "zero-slot"][tk as usize];
-                        let human = format!("{:?} {} layer={} target={} round={} collided={} gas=({},{})", spec, kn, LAYERS[layer], tn, round, collided, ga, gb);
+                        let human = format!("{:?} {} layer={} target={} round={} after_touch={} collided={} gas=({},{})", spec, kn, LAYERS[layer], tn, round, hist, collided, ga, gb);
                         let t1 = format!("kind:{}", kn); let t2 = format!("layer:{}", LAYERS[layer]); let t3 = format!("target:{}", tn);
                         let t4 = if collided { "outcome:collision" } else { "outcome:created" };
-                        w.push(case, human, true, &[&t1, &t2, &t3, t4]);
+                        let t5 = if hist { "history:after-committed-transfer" } else { "history:fresh-database" };
+                        w.push(case, human, true, &[&t1, &t2, &t3, t4, t5]);
                     }
                 }
             }
         }
     }
-    w.finish("matrix {13 SpecIds} x {create transaction, CREATE and CREATE2 from a factory contract} x {8 database layers holding the target: custom DB with has_storage, State<DB>, CacheDB<DB>, inserted into CacheDB<EmptyDB>, WrapDatabaseRef<DB>, WrapDatabaseRef<CacheDB<DB>>, State over CacheDB with inserts, CacheDB over CacheDB with inserts} x {target empty/missing, code, nonce, storage only (EIP-7610), storage+balance, balance only, a slot holding zero}, random addresses/nonces/salts/gas limits, executed by Evm::transact; observed: collision or created address, gas before/after the create in the creator (transaction: gas_used vs gas_limit), target account and storage afterwards, creator nonce");
+    w.finish("matrix {13 SpecIds} x {create transaction, CREATE and CREATE2 from a factory contract} x {8 database layers holding the target: custom DB with has_storage, State<DB>, CacheDB<DB>, inserted into CacheDB<EmptyDB>, WrapDatabaseRef<DB>, WrapDatabaseRef<CacheDB<DB>>, State over CacheDB with inserts, CacheDB over CacheDB with inserts} x {target empty/missing, code, nonce, storage only (EIP-7610), storage+balance, balance only, a slot holding zero} x {fresh database, or (odd rounds, committing layers) after a committed 1-wei transfer to the target}, random addresses/nonces/salts/gas limits, executed by Evm::transact; observed: collision or created address, gas before/after the create in the creator (transaction: gas_used vs gas_limit), target account and storage afterwards, creator nonce");
 }
